@@ -1443,6 +1443,10 @@ func (st *inlineState) normalise(body *ast.BlockStmt) {
 				cl := cc.(*ast.CaseClause)
 				cl.Body = lists(cl.Body)
 			}
+			if r := st.typeSwitchNil(x); r != nil {
+				st.changed = true
+				return []ast.Stmt{r}
+			}
 		case *ast.SelectStmt:
 			for _, cc := range x.Body.List {
 				cl := cc.(*ast.CommClause)
@@ -2209,4 +2213,95 @@ func (st *inlineState) replaceExprs(v reflect.Value, pred func(ast.Expr) bool, m
 			st.replaceExprs(el, pred, mk)
 		}
 	}
+}
+
+
+// typeSwitchNil: a type switch on a plain variable with a `case nil` clause is
+// `if v == nil { <nil clause> } else { <the switch without that clause> }`:
+// the nil test then exists as a condition the flow analysis can use.
+func (st *inlineState) typeSwitchNil(x *ast.TypeSwitchStmt) ast.Stmt {
+	if x.Init != nil {
+		return nil
+	}
+	var ta *ast.TypeAssertExpr
+	var bound *ast.Ident
+	switch a := x.Assign.(type) {
+	case *ast.ExprStmt:
+		ta, _ = ast.Unparen(a.X).(*ast.TypeAssertExpr)
+	case *ast.AssignStmt:
+		if len(a.Lhs) == 1 && len(a.Rhs) == 1 {
+			ta, _ = ast.Unparen(a.Rhs[0]).(*ast.TypeAssertExpr)
+			bound, _ = a.Lhs[0].(*ast.Ident)
+		}
+	}
+	if ta == nil {
+		return nil
+	}
+	opv := VarOf(st.info, ta.X)
+	if opv == nil || opv.IsField() {
+		return nil
+	}
+	nilIdx := -1
+	for i, cc := range x.Body.List {
+		cl := cc.(*ast.CaseClause)
+		if len(cl.List) == 1 && isNil(st.info, ast.Unparen(cl.List[0])) {
+			nilIdx = i
+		}
+	}
+	if nilIdx < 0 {
+		return nil
+	}
+	nilClause := x.Body.List[nilIdx].(*ast.CaseClause)
+	// no break inside the nil clause that belongs to the switch
+	bad := false
+	for _, s := range nilClause.Body {
+		ast.Inspect(s, func(n ast.Node) bool {
+			switch b := n.(type) {
+			case *ast.BranchStmt:
+				if b.Tok == token.BREAK && b.Label == nil {
+					bad = true
+				}
+				if b.Tok == token.FALLTHROUGH {
+					bad = true
+				}
+			case *ast.ForStmt, *ast.RangeStmt, *ast.SwitchStmt, *ast.TypeSwitchStmt, *ast.SelectStmt, *ast.FuncLit:
+				return false
+			}
+			return true
+		})
+	}
+	if bad {
+		return nil
+	}
+	// in the nil clause the bound variable is the operand itself
+	if bound != nil {
+		if imp, ok := st.info.Implicits[nilClause].(*types.Var); ok {
+			for _, s := range nilClause.Body {
+				ast.Inspect(s, func(n ast.Node) bool {
+					if id, ok := n.(*ast.Ident); ok && st.info.Uses[id] == types.Object(imp) {
+						st.info.Uses[id] = opv
+						id.Name = opv.Name()
+					}
+					return true
+				})
+			}
+		}
+	}
+	nilObj := types.Universe.Lookup("nil")
+	nid := &ast.Ident{Name: "nil", NamePos: nilClause.Pos()}
+	st.info.Uses[nid] = nilObj
+	st.info.Types[nid] = types.TypeAndValue{Type: types.Typ[types.UntypedNil]}
+	cond := &ast.BinaryExpr{X: st.useIdent(opv, nilClause.Pos()), OpPos: nilClause.Pos(), Op: token.EQL, Y: nid}
+	st.info.Types[cond] = types.TypeAndValue{Type: types.Typ[types.Bool]}
+	rest := &ast.TypeSwitchStmt{Switch: x.Switch, Assign: x.Assign, Body: &ast.BlockStmt{Lbrace: x.Body.Lbrace, Rbrace: x.Body.Rbrace}}
+	for i, cc := range x.Body.List {
+		if i != nilIdx {
+			rest.Body.List = append(rest.Body.List, cc)
+		}
+	}
+	is := &ast.IfStmt{If: x.Switch, Cond: cond, Body: &ast.BlockStmt{Lbrace: nilClause.Colon, List: nilClause.Body, Rbrace: nilClause.End()}}
+	if len(rest.Body.List) > 0 {
+		is.Else = &ast.BlockStmt{Lbrace: x.Body.Lbrace, List: []ast.Stmt{rest}, Rbrace: x.Body.Rbrace}
+	}
+	return is
 }
